@@ -110,3 +110,23 @@ Section Lift.
     nth i (projected_conv F P2 ii s D u) (fzero F) k = nth i (projected_conv F P2' ii s D u) (fzero F) k.
   Proof. unfold projected_conv. apply leray_ext; [reflexivity | intros j; apply cross_lift]. Qed.
 End Lift.
+
+(* C12: on the laminar subspace of the 2D Kolmogorov flow (vorticity depending on x_1 only: spectrum supported on k_0 = 0)
+   the convection term vanishes identically *)
+Section Laminar2D.
+  Variable F : FieldT.
+  Add Field Ffl : (fth F).
+  Variables (N Kc : Z) (ii s b : F).
+  Variable w : field F.
+  Hypothesis w_support : forall k, nth 0 k 0%Z <> 0%Z -> w k = 0.
+
+  Theorem vorticity_conv_laminar k : vorticity_conv F (prod2 F 2 N Kc) ii s 2 b w k = 0.
+  Proof.
+    unfold vorticity_conv. cbv zeta. unfold fscal, fadd.
+    rewrite (prod2_zero_r F 2 N Kc _ (fmulp F (dc F ii s 0) w)).
+    2:{ intros x. unfold fmulp, dc. destruct (Z.eq_dec (nth 0 x 0%Z) 0) as [E|E]; [rewrite E; cbn [fz]; ring | rewrite (w_support x E); ring]. }
+    rewrite (prod2_zero_l F 2 N Kc (fun k0 => - (1) * fmulp F (dc F ii s 0) (fmulp F (inv_lap_one F ii s 2) w) k0)).
+    2:{ intros x. unfold fmulp, dc. destruct (Z.eq_dec (nth 0 x 0%Z) 0) as [E|E]; [rewrite E; cbn [fz]; ring | rewrite (w_support x E); ring]. }
+    ring.
+  Qed.
+End Laminar2D.
